@@ -111,7 +111,7 @@ void h_to_string(void) { ARB(b); GHOST(g); VF_INPUT(char, zero); VF_INPUT(char, 
   VF_ASSERT(len == N && out[N - 1 - g] == (bit(&b, g) ? one : zero), "to_string(zero,one): N characters, character N-1-i shows bit i (most significant first)");
   VF_REACH(); }
 
-/*@GROUP name=from_string props=C17,C02 kind=K unwind=VF_N+4 when=(VF_BASIC==0)*(VF_N<=33) bound=string-length<=12@*/
+/*@GROUP name=from_string props=C17,C02 kind=K unwind=VF_N+4 when=(VF_BASIC==0)*(VF_N<=9) bound=string-length<=11@*/
 void h_from_string(void) { VF_INPUT(B, b); VF_INPUT(B, c); GHOST(g); VF_INPUT(unsigned char, len); VF_INPUT(unsigned char, pos); VF_INPUT(unsigned long, n); VF_INPUT(char, zero); VF_INPUT(char, one);
 #define LMAX ((N < 10 ? N : 10) + 2)   /* the string is at most 12 characters (all lengths up to N+2 for N <= 10) */
   __CPROVER_assume(len <= LMAX && pos <= len && zero != one); VF_BUF(char, s, len, LMAX);
